@@ -1,6 +1,6 @@
 (* Headline properties restated about the GENERATED code: identity points and the zero key (C04). *)
 From BV Require Import Alg.Field Alg.Dlog Sem.Base Model.Oracles Model.Helpers Model.Varint Model.Core
-     Model.Protocols Model.Api Theory.CoreFacts Theory.Schemes Theory.TimeLock Theory.Guards
+     Model.Protocols Model.Api Theory.CoreFacts Theory.Schemes Theory.TimeLock Theory.Guards Theory.Aggregate
      Gen.Consts Gen.Funcs Refine.Prelude Refine.Tactics Refine.SigCore Refine.SigSchemes Refine.WSig
      Refine.TimeLock Props.C04.
 
@@ -22,7 +22,44 @@ Section G.
     length v = 32%nat -> valid = false \/ dl sig = f0 K \/ dl u = f0 K ->
     gen_BlsTimeCrypt_unseal E u v w sig valid = Val r -> r = None.
   Proof. intros Hl Hc Hu. rewrite r_tl_unseal in Hu. exact (C04_time_lock_open K laws O C OL dbg u v w sig valid r Hl Hc Hu). Qed.
+  (* C04: identity multi-signature or identity accumulated key never verifies in the translated MultiSignature::verify *)
+  Theorem generated_multi_verify_rejects_identity (m : tagged) (mpk : pt K Gpk) (msg : bytes) :
+    dl (tg_pt m) = f0 K \/ dl mpk = f0 K -> gen_MultiSignature_verify E m mpk msg <> Val (Ok tt).
+  Proof.
+    intros H. rewrite r_multi_verify. intros Hv. injection Hv as Hv.
+    exact (C04_multisig_verify K laws O C m mpk msg H Hv).
+  Qed.
+
+  (* C04: identity proof or identity key never verifies in the translated ProofOfPossession::verify *)
+  Theorem generated_pop_verify_rejects_identity (p : pt K Gsig) (pk : pt K Gpk) :
+    dl p = f0 K \/ dl pk = f0 K -> gen_ProofOfPossession_verify E p pk <> Val (Ok tt).
+  Proof.
+    intros H. rewrite r_pop_wrapper_verify. intros Hv. injection Hv as Hv.
+    exact (C04_pop_verify K laws O C p pk H Hv).
+  Qed.
+
+  (* C04: the translated AggregateSignature::verify accepts only a non-identity aggregate over non-identity keys *)
+  Theorem generated_aggregate_verify_rejects_identity (a : tagged) (data : list (pt K Gpk * bytes)) :
+    (dbg = true -> hashes_nonzero K O (eff_data K O (tg_scheme a) data) (dst_of C (tg_scheme a))) ->
+    gen_AggregateSignature_verify E a data = Val (Ok tt) -> dl (tg_pt a) <> f0 K /\ no_id_pk K data.
+  Proof.
+    intros H. rewrite r_agg_verify. intros Hv.
+    apply (C04_aggregate_verify K laws O C dbg a data H) in Hv. destruct Hv as (_ & Ha & Hk & _). split; assumption.
+  Qed.
+  (* C04: an identity key share or identity signature share never verifies in the translated PublicKeyShare::verify
+     and SignatureShare::verify *)
+  Theorem generated_share_verify_rejects_identity (pks : share) (sg : tagged_share) (msg : bytes) :
+    dec_pk O (sval pks) = Some (f0 K) \/ dec_sig O (sval (ts_share sg)) = Some (f0 K) ->
+    gen_PublicKeyShare_verify E pks sg msg <> Val (Ok tt) /\ gen_SignatureShare_verify E sg pks msg <> Val (Ok tt).
+  Proof.
+    intros H. rewrite r_pks_verify, r_sigshare_verify.
+    split; intros Hv; injection Hv as Hv; exact (C04_share_verify K laws O C pks sg msg H Hv).
+  Qed.
 End G.
 
 Print Assumptions generated_verify_rejects_identity.
 Print Assumptions generated_time_lock_gating.
+Print Assumptions generated_multi_verify_rejects_identity.
+Print Assumptions generated_pop_verify_rejects_identity.
+Print Assumptions generated_aggregate_verify_rejects_identity.
+Print Assumptions generated_share_verify_rejects_identity.
